@@ -39,3 +39,13 @@ def Out.andThen : Out → Out → Out
   | _, _ => .raised
 
 end Yow.Py
+
+namespace Yow.Py
+
+/-- what a translated function that reads off the front of a list did: it raised, or it returned `v` and left `rest` -/
+inductive Rd
+  | raised
+  | ret (v : Nat) (rest : List Nat)
+deriving Repr, DecidableEq
+
+end Yow.Py
